@@ -9,6 +9,7 @@ import (
 	"regexp"
 	"strconv"
 	"strings"
+	"unicode/utf8"
 	"unsafe"
 
 	"golang.org/x/tools/go/ssa"
@@ -918,6 +919,73 @@ func init() {
 		return fr.m.reSplit(regexpOf(a[0]), a[1], int(asInt64(a[2])))
 	})
 	reg("(*regexp.Regexp).String", func(fr *frame, a []value) value { return regexpOf(a[0]).String() })
+
+	// ---- unicode/utf8 (table-driven in the real package; modelled by range forks)
+	reg("unicode/utf8.DecodeRune", func(fr *frame, a []value) value {
+		b := a[0].([]value)
+		if len(b) == 0 {
+			return tuple{int32(0xFFFD), 0}
+		}
+		r, n := fr.m.decodeRune(b)
+		return tuple{r, n}
+	})
+	reg("unicode/utf8.DecodeRuneInString", func(fr *frame, a []value) value {
+		b := strBytes(a[0])
+		if len(b) == 0 {
+			return tuple{int32(0xFFFD), 0}
+		}
+		r, n := fr.m.decodeRune(b)
+		return tuple{r, n}
+	})
+	reg("unicode/utf8.RuneCountInString", func(fr *frame, a []value) value {
+		b := strBytes(a[0])
+		n := 0
+		for i := 0; i < len(b); n++ {
+			_, w := fr.m.decodeRune(b[i:])
+			i += w
+		}
+		return n
+	})
+	reg("unicode/utf8.RuneCount", func(fr *frame, a []value) value {
+		b := a[0].([]value)
+		n := 0
+		for i := 0; i < len(b); n++ {
+			_, w := fr.m.decodeRune(b[i:])
+			i += w
+		}
+		return n
+	})
+	reg("unicode/utf8.ValidString", func(fr *frame, a []value) value {
+		b := strBytes(a[0])
+		for i := 0; i < len(b); {
+			r, w := fr.m.decodeRune(b[i:])
+			if w == 1 {
+				if rc, ok := r.(int32); ok && rc == 0xFFFD {
+					return false
+				}
+			}
+			i += w
+		}
+		return true
+	})
+	reg("unicode/utf8.EncodeRune", func(fr *frame, a []value) value {
+		p := a[0].([]value)
+		enc := fr.m.encodeRune(a[1])
+		if len(p) < len(enc) {
+			panic(fr.m.runtimeError(fmt.Sprintf("index out of range [%d] with length %d", len(enc)-1, len(p))))
+		}
+		copy(p, enc)
+		return len(enc)
+	})
+	reg("unicode/utf8.AppendRune", func(fr *frame, a []value) value {
+		return append(a[0].([]value), fr.m.encodeRune(a[1])...)
+	})
+	reg("unicode/utf8.RuneLen", func(fr *frame, a []value) value {
+		if rc, ok := a[0].(int32); ok {
+			return utf8.RuneLen(rc)
+		}
+		return len(fr.m.encodeRune(a[0]))
+	})
 
 	// ---- misc
 	reg("runtime.Gosched", func(fr *frame, a []value) value {
